@@ -456,13 +456,13 @@ func genVps265(r *Rng, wild bool) (string, string) {
 }
 
 func genHevcTrees(c *Ctx, add func(caseT)) {
-	n := c.Budget(4000, 50000)
+	n := c.Budget(4000, 24000)
 	for i := 0; i < n; i++ {
 		wild := c.Rng.Chance(12)
 		line, class := genSps265(c.Rng, wild)
 		add(caseT{line: line, kind: "hevcspsenc", wf: !wild, class: class})
 	}
-	m := c.Budget(1500, 15000)
+	m := c.Budget(1500, 8000)
 	for i := 0; i < m; i++ {
 		wild := c.Rng.Chance(12)
 		line, class := genVps265(c.Rng, wild)
